@@ -11,7 +11,8 @@ RULE = ("A case is (protocol version, check style CRC-8/additive, with/without m
         "'sensors' = 256 x 10 (byte, tenths) x {indoor,outdoor} x {C,F}; 'setpoint_codes' = 32 alternate x 32 primary "
         "codes; 'flag_bytes' = all 256 values of body bytes 1,2,3,7,8,9,10,13,14,19,21 with the other bytes random; "
         "'lengths' = body lengths 16..40, each seen by one object between longer and shorter reports; 'random' = random "
-        "bodies of mixed lengths. One run in eight has the msmart loggers at DEBUG with a formatting handler. Distinct = distinct body; non-trivial = every case.")
+        "bodies of mixed lengths. One run in eight has the msmart loggers at DEBUG with a formatting handler. Distinct = distinct body; non-trivial = every case."
+        " Later additions: wall-clock steps between reports, learned capability profiles, both auxiliary-heat flags on.")
 ASSUMPTIONS = [
     "vendor decode = refmodel/acmodel.decode_state (Lua binToModel lines 1664-1836) with the choices of DESIGN 5.3: "
     "fan asserted for report bytes 0..127, swing asserted for the four meaningful nibbles, mode asserted for 1..6, "
